@@ -408,7 +408,7 @@ class ExprGen:
         if self.quantifiers and depth >= 1:
             q = r.choice(["exists", "forall"])
             self.fresh += 1
-            tyn = r.choice(["T", "S", "S", "U", "E"] if r.random() < 0.15 else ["T", "S", "S", "U"])
+            tyn = r.choice(["T", "S", "S", "U", "E"] if (r.random() < 0.15 and getattr(self, "empty_type", True)) else ["T", "S", "S", "U"])
             v = (f"q{self.fresh}", ["user", tyn])
             vs = [list(v)]
             sc = tuple(scope) + (v,)
